@@ -729,3 +729,80 @@ func argOfParam(p *Program, v ssa.Value, depth int) ssa.Value {
 	}
 	return argOfParam(p, calls[0].Common().Args[idx], depth+1)
 }
+
+// structFieldValues: fieldValues that also follows a struct handed in as a parameter (by value
+// or by pointer) to the arguments of every call, and local copies to what was copied.
+func structFieldValues(p *Program, x ssa.Value, field int, d int) ([]ssa.Value, bool) {
+	if d > 4 {
+		return nil, false
+	}
+	switch y := x.(type) {
+	case *ssa.Parameter:
+		fn := y.Parent()
+		calls, asValue := directCallSites(p, fn)
+		if asValue || len(calls) == 0 {
+			return nil, false
+		}
+		var out []ssa.Value
+		for i, q := range fn.Params {
+			if q != y {
+				continue
+			}
+			for _, call := range calls {
+				if i >= len(call.Common().Args) {
+					return nil, false
+				}
+				arg := call.Common().Args[i]
+				if _, isPtr := arg.Type().Underlying().(*types.Pointer); isPtr {
+					// pointer to a struct variable of the caller
+					if al, ok := arg.(*ssa.Alloc); ok {
+						arg = &ssa.UnOp{Op: token.MUL, X: al}
+					} else {
+						return nil, false
+					}
+				}
+				sub, ok := structFieldValues(p, arg, field, d+1)
+				if !ok {
+					return nil, false
+				}
+				out = append(out, sub...)
+			}
+		}
+		return out, true
+	case *ssa.UnOp:
+		al, isAlloc := y.X.(*ssa.Alloc)
+		if y.Op != token.MUL || !isAlloc || al.Referrers() == nil {
+			if par, ok := y.X.(*ssa.Parameter); ok && y.Op == token.MUL {
+				return structFieldValues(p, par, field, d) // *p for a pointer parameter
+			}
+			return nil, false
+		}
+		var out []ssa.Value
+		for _, r := range *al.Referrers() {
+			switch z := r.(type) {
+			case *ssa.FieldAddr:
+				if z.Field != field || z.Referrers() == nil {
+					continue
+				}
+				for _, r2 := range *z.Referrers() {
+					if st, ok := r2.(*ssa.Store); ok && st.Addr == ssa.Value(z) {
+						out = append(out, st.Val)
+					}
+				}
+			case *ssa.Store:
+				if z.Addr == ssa.Value(al) {
+					if ld, isLd := z.Val.(*ssa.UnOp); isLd && ld.X == ssa.Value(al) {
+						continue
+					}
+					sub, ok := structFieldValues(p, z.Val, field, d+1)
+					if !ok {
+						return nil, false
+					}
+					out = append(out, sub...)
+				}
+			}
+		}
+		return out, true
+	}
+	return fieldValues(x, field, 0)
+}
